@@ -10,6 +10,7 @@ import (
 	"strings"
 	"time"
 
+	"github.com/beevik/etree"
 	saml2 "github.com/russellhaering/gosaml2"
 	"github.com/russellhaering/gosaml2/types"
 
@@ -360,6 +361,65 @@ func c09EncClass(e c09Enc) string {
 	return mode + "/" + shape
 }
 
+// ---------- (b') valid encrypted assertions at every placement ----------
+
+type c09Placed struct{ name, enc string }
+
+func c09Placements() []c09Placed {
+	var out []c09Placed
+	mk := func(name string, signedRoot bool, place func(root, ea *etree.Element)) {
+		r := idp.DefaultResponse(1)
+		r.Assertions[0].Sign = idp.SignSpec{Key: "K3"}
+		doc := idp.BuildResponse(r)
+		root := doc.Root()
+		as := allOf(root, idp.NSA, "Assertion")[0]
+		ea := idp.EncryptPlaintext(idp.StandaloneBytes(as), idp.EncSpec{})
+		root.RemoveChild(as)
+		place(root, ea)
+		if signedRoot {
+			idp.SignInPlace(root, idp.SignSpec{Key: "K3"})
+			name += "/signed-root"
+		}
+		out = append(out, c09Placed{name, idp.Encode(idp.Bytes(doc, idp.Layout{}), false)})
+	}
+	for _, signed := range []bool{false, true} {
+		mk("direct-child", signed, func(root, ea *etree.Element) { root.AddChild(ea) })
+		mk("twice", signed, func(root, ea *etree.Element) { root.AddChild(ea); root.AddChild(ea.Copy()) })
+		for _, w := range wrapperKinds {
+			w := w
+			mk("inside-"+w, signed, func(root, ea *etree.Element) {
+				wr := wrapper(w)
+				wr.AddChild(ea)
+				root.AddChild(wr)
+			})
+		}
+		mk("inside-nested-element-named-like-the-root", signed, func(root, ea *etree.Element) {
+			inner := &etree.Element{Space: root.Space, Tag: root.Tag}
+			inner.AddChild(ea)
+			wr := wrapper("Extensions")
+			wr.AddChild(inner)
+			root.AddChild(wr)
+		})
+		mk("inside-nested-element-named-like-the-root-directly", signed, func(root, ea *etree.Element) {
+			inner := &etree.Element{Space: root.Space, Tag: root.Tag}
+			inner.AddChild(ea)
+			root.AddChild(inner)
+		})
+		mk("inside-an-assertion", signed, func(root, ea *etree.Element) {
+			a := evilAssertion("_evil-1")
+			a.AddChild(ea)
+			root.AddChild(a)
+		})
+		mk("inside-encrypted-assertion-element", signed, func(root, ea *etree.Element) {
+			outer := &etree.Element{Space: "saml", Tag: "EncryptedAssertion"}
+			outer.CreateAttr("xmlns:saml", idp.NSA)
+			outer.AddChild(ea)
+			root.AddChild(outer)
+		})
+	}
+	return out
+}
+
 // ---------- direct calls with odd certificates ----------
 
 type c09Direct struct {
@@ -563,7 +623,7 @@ func c09Run(r *mc.Run) {
 		bits = []uint{0, 1, 2, 3, 4, 5, 6, 7}
 	}
 	r.Level = "fault_enumeration"
-	r.Rule = "(a) 6 base messages x 3 layers (base64 text, DEFLATE stream, XML bytes): every truncation offset, every single-bit flip (quick: bits 0 and 7 of every byte; thorough: all 8), 12 byte substitutions at every position, each fed to the entry points of its kind under 3 configurations (truncations: to all 6 entry points); (b) unsigned Response + EncryptedAssertion: 8 algorithm identifiers x every ciphertext length 0..64 x content families (zeros, 0xff, valid-truncated, every final plaintext byte 0..255, every position x value of the last non-zero byte of the final block, all-zero final block) with deviation-bounded key-transport / digest / key length / placement / recipient variants, through ValidateEncodedResponse and through DecryptBytes/Decrypt directly; direct DecryptSymmetricKey/DecryptBytes calls with odd certificates; (c) structure extremes in a child process. non-trivial = the input passed base64 decoding (reached XML/DEFLATE processing) or reached the decryption routine; distinct = distinct input"
+	r.Rule = "(a) 6 base messages x 3 layers (base64 text, DEFLATE stream, XML bytes): every truncation offset, every single-bit flip (quick: bits 0 and 7 of every byte; thorough: all 8), 12 byte substitutions at every position, each fed to the entry points of its kind under 3 configurations (truncations: to all 6 entry points); (b) unsigned Response + EncryptedAssertion: 8 algorithm identifiers x every ciphertext length 0..64 x content families (zeros, 0xff, valid-truncated, every final plaintext byte 0..255, every position x value of the last non-zero byte of the final block, all-zero final block) with deviation-bounded key-transport / digest / key length / placement / recipient variants, through ValidateEncodedResponse and through DecryptBytes/Decrypt directly; a valid EncryptedAssertion at 11 placements (direct child, twice, 4 wrappers, nested elements named like the root, inside an assertion, inside another EncryptedAssertion) under signed and unsigned roots; direct DecryptSymmetricKey/DecryptBytes calls with odd certificates; (c) structure extremes in a child process. non-trivial = the input passed base64 decoding (reached XML/DEFLATE processing) or reached the decryption routine; distinct = distinct input"
 	r.Assume("a Go panic in the callee is observable by recover(); fatal runtime errors are observed as death of a child process")
 
 	// (a)
@@ -693,6 +753,26 @@ func c09Run(r *mc.Run) {
 			r.Sample(map[string]interface{}{"case": c.Enc})
 		}
 	})
+
+	// (b') a VALID EncryptedAssertion (decrypts to a well-formed assertion) at every placement:
+	// direct child, inside wrappers, inside a nested element named like the root, inside an
+	// assertion, inside a signature, twice; under a signed and an unsigned root
+	for pi, in := range c09Placements() {
+		for e := 0; e < 2; e++ {
+			for cf := range c09Confs {
+				v, d := c09Call(e, cf, in.enc)
+				r.Eval(1)
+				r.Nontrivial(in.name + fmt.Sprint(e, cf))
+				if v != "" {
+					r.Bucket("placement/VIOLATION")
+					r.Violation(fmt.Sprintf("C09/%s/encrypted-assertion-placement/%s/%s", c09Entries[e], in.name, v), d, c09Case{Family: "encrypted-assertion-placement/" + in.name, Entry: e, Conf: cf, Input: in.enc})
+				} else {
+					r.Bucket("placement/total")
+				}
+			}
+		}
+		_ = pi
+	}
 
 	// direct calls
 	for _, routine := range []string{"DecryptSymmetricKey", "DecryptBytes"} {
